@@ -57,6 +57,7 @@ func TestC15(t *testing.T) {
 	c15EnvFaultsOther(t, rec)
 	c15Rewards(t, rec)
 	c15LendDayBoundary(t, rec)
+	c15TwoFills(t, rec)
 	rec.SetExhaustive(false)
 	rec.Floor("crash_points_injected", 200)
 	rec.Floor("explored_blocks_begin", 2)
